@@ -40,13 +40,14 @@ func (*c05) Rule() string {
 		"x ~200 argument shapes (unbound, shared variable, atoms, integers incl. extremes, floats, compounds, clauses, option terms, proper/partial/improper lists in every engine representation, strings, open/closed text and binary streams, aliases, callable and non-callable goals, 10^4-element and depth-1000/5000 terms): " +
 		"arity 1 all shapes; arity 2 all pairs of a reduced set (14; thorough 45) + the other shapes next to seeded partners; arity 3 pairwise-covering rows (quick) / all triples of a 16-shape set (thorough); arity 4-8 pairwise-covering rows + all combinations of 4 benign shapes (arity <= 5); a 5 % sample again as one term through call/1 and, for every predicate that takes a file name or a stream plus another 5 % sample, as catch(Goal, _, true) (host errors reach the catcher as error(system_error, _)); " +
 		"plus a grid of evaluable functors x extreme numbers through is/2 and ~1150 hand-written corner goals. " +
-		"Refuting: death of the worker process attributed to the case (stack overflow, unrecovered panic, deadlock, runtime throw, signal, checkptr, out of memory at the 3 GiB cap); no return after 45 CPU-seconds (kernel CPU-time limit per case) on an input <= 4 KiB; " +
+		"Refuting: death of the worker process attributed to the case (stack overflow, unrecovered panic, deadlock, runtime throw, signal, checkptr, out of memory at the 3 GiB cap); no return after 45 CPU-seconds (kernel CPU-time limit per case) on an input <= 4 KiB; a goal of the procedure x shape matrix with <= 4 KiB of arguments, none of them a goal that runs forever (repeat), still running after 200000 trampoline steps; " +
 		"for goals an error that is not an engine.Exception (host I/O errors excepted) or whose term is not error(Formal,_) with Formal in the ISO vocabulary (DESIGN Appendix C) - balls of throw/1 excepted; any returned error whose text/term shows a recovered Go panic. " +
 		"Non-trivial: a text of >= 2 tokens that returned from every call / a goal that reached the predicate body (did not end in existence_error(procedure, P/N) for the predicate itself); distinct by text+table+arguments / by predicate+shapes."
 }
 func (*c05) Assumptions() []string {
 	return []string{
 		"stated memory bound: GOMEMLIMIT=1GiB, 256 MiB Go stack, generated terms <= 10^4 nodes (<= 10^7 cells for sizes passed as integers); address space of a worker capped at 3 GiB (RLIMIT_AS)",
+		"a goal that does not return because one of its arguments is a goal that never terminates (findall(X, repeat, L)) is what ISO prescribes and is not a violation: such goals are ended by the step budget and counted (budget_hit); hand-written corner goals that hit the budget are only counted as well",
 		"cyclic terms and halt/0,1 are never generated (excluded by the property); texts containing the letters 'halt' are dropped",
 		"the clock for 'does not return' is the CPU time of the worker process (soft RLIMIT_CPU re-armed per case, SIGXCPU with its default action; linux/amd64); the wall-clock watchdog (10 min) alone is inconclusive unless the /proc CPU reading shows > 20 CPU-seconds on an input <= 4 KiB or the goroutine dump shows the main goroutine blocked in the library with nothing runnable",
 		"work that is slow but finite on inputs > 4 KiB (the term writer and acyclic_term/1 are quadratic in list length / nesting depth) is inconclusive when it reaches the CPU limit, never a violation",
@@ -642,6 +643,23 @@ func (c *c05) judgeGoal(cx *Ctx, m *c05Meta, it *Item, o *run.Outcome) Verdict {
 		// the engine honoured the cancellation: the call returned; what it returned is context.Canceled
 		extra["budget_hit"]++
 		sample["observed"] = fmt.Sprintf("%d answer(s), then cancelled by the step budget after %d steps", r.Answers, r.Steps)
+		if os.Getenv("C05_LIST_BUDGET") != "" {
+			cx.Note(fmt.Sprintf("step budget: %s (%d answers before)", what, r.Answers))
+		}
+		// A goal of the matrix whose arguments are all finite data or goals that terminate (no shape runs forever:
+		// the only such shape is repeat) and that is small must return by itself: the step budget (200000 trampoline steps) is three orders
+		// of magnitude above what any library predicate needs on <= 4 KiB of arguments.
+		endless := false
+		for _, id := range m.Shapes {
+			endless = endless || strings.Contains(id, "repeat")
+		}
+		if m.Family == "goal-matrix" && !endless && m.Size <= c05TinyInput {
+			v.Status = Violated
+			v.Class = "no_return_on_finite_arguments"
+			v.Msg = fmt.Sprintf("%s did not return: still running after %d trampoline steps (%d answers before); none of its arguments is a goal that runs forever", what, r.Steps, r.Answers)
+			extra["no_return_on_finite_arguments"]++
+			return v
+		}
 	case r.Err == nil:
 		extra["outcome_answers_or_failure"]++
 		sample["observed"] = fmt.Sprintf("%d answer(s), exhausted=%v", r.Answers, r.Exhausted)
